@@ -54,6 +54,15 @@ type scenario struct {
 // the threads start (unscheduled, unhooked: it happens-before every thread).
 var setups = map[string]func(){}
 
+// inits: scenario name -> runs inside the scheduler, on the main thread, before
+// the threads are spawned (for state that has to be set up through the model,
+// e.g. a WaitGroup counter).
+var inits = map[string]func(){}
+
+// wants: scenario name -> expected result per thread, for scenarios whose
+// threads cannot be executed alone.
+var wants = map[string][]string{}
+
 func par(fs ...func() string) []func() string { return fs }
 
 func f32(v float32) string { return strconv.FormatFloat(float64(v), 'g', -1, 32) }
@@ -607,9 +616,13 @@ func explore(sc *scenario, minBound int, budget time.Duration) report {
 	rep := report{Scenario: sc.name, Threads: len(sc.threads), Bound: -1, MaxBound: minBound}
 	// sequential reference: each thread function executed alone, fresh state each
 	want := make([]string, len(sc.threads))
-	for i := range sc.threads {
-		fresh(sc)
-		want[i] = sc.threads[i]()
+	if w, ok := wants[sc.name]; ok {
+		copy(want, w) // threads that cannot run alone (litmus programs): expectation given
+	} else {
+		for i := range sc.threads {
+			fresh(sc)
+			want[i] = sc.threads[i]()
+		}
 	}
 	outcomes := map[string]bool{}
 	sigs := map[string]bool{}
@@ -617,7 +630,12 @@ func explore(sc *scenario, minBound int, budget time.Duration) report {
 	runOnce := func(prefix []int) (vrt.Result, []string) {
 		fresh(sc)
 		results := make([]string, len(sc.threads))
-		res := vrt.Run(prefix, 2000000, func() { runThreads(sc, results) })
+		res := vrt.Run(prefix, 2000000, func() {
+			if f := inits[sc.name]; f != nil {
+				f()
+			}
+			runThreads(sc, results)
+		})
 		return res, results
 	}
 	judge := func(res vrt.Result, results []string) (kind, desc string) {
@@ -739,14 +757,15 @@ func explore(sc *scenario, minBound int, budget time.Duration) report {
 		cur.HBStates = len(visited)
 		rep.HBStates = len(visited)
 		if len(rep.Violations) > 0 {
-			found := rep.Violations
-			for b := 0; b < bound; b++ {
+			found, top := rep.Violations, bound
+			for b := 0; b < top; b++ {
 				bound, visited, rep.Violations = b, map[[2]uint64]int16{}, nil
 				seenViolation = map[string]bool{}
 				rep.Passes = append(rep.Passes, pass{Bound: b, Complete: true})
 				cur = &rep.Passes[len(rep.Passes)-1]
 				rec(nil)
-				if len(rep.Violations) > 0 {
+				cur.HBStates = len(visited)
+				if len(rep.Violations) > 0 || !cur.Complete {
 					break
 				}
 			}
@@ -783,6 +802,11 @@ func main() {
 				return &scs[i]
 			}
 		}
+		for _, l := range litmusTests() {
+			if "litmus/"+l.name == name {
+				return litmusScenario(l)
+			}
+		}
 		fmt.Fprintln(os.Stderr, "unknown scenario", name)
 		os.Exit(2)
 		return nil
@@ -802,6 +826,8 @@ func main() {
 		rep := explore(sc, bound, time.Duration(budget)*time.Second)
 		b, _ := json.Marshal(rep)
 		fmt.Println(string(b))
+	case "selftest":
+		selftest()
 	case "replay":
 		// harness replay <scenario> <c0,c1,...>: one execution under the recorded choices
 		sc := find(os.Args[2])
